@@ -229,6 +229,10 @@ def toks_text(ts):
                 i += 1
                 t = ts[i]
                 s += t['v']
+            if s.endswith("'") and t.get('joint') and i + 1 < len(ts) and ts[i + 1]['t'] == 'i':
+                # lifetime: the quote and the identifier form one token
+                i += 1
+                s += ts[i]['v']
             out.append(s)
         else:
             out.append(tok_text(t))
@@ -1008,7 +1012,7 @@ class Interp:
                     aid = self.fresh('acc')
                     self.accs[aid] = {'entries': [], 'fn': self.frame['fn'], 'name': let_name, 'line': e['line']}
                     return ('acc', aid)
-                return ('new', segs[-2], self.fresh('c'), tuple(l[0] for l in self.frame['loops']))
+                return ('new', segs[-2], self.fresh('c'), tuple(l[0] for l in self.frame['loops']), self.frame['callee'])
             if last == 'new' and len(segs) >= 2 and segs[-2] == 'Ident':
                 return ('call', 'Ident::new', args[:1])
             if last in ('call_site',) and len(segs) >= 2 and segs[-2] == 'Span':
